@@ -90,6 +90,8 @@ SPEC2.update({
     'ent': "lambda S, a, b: S[a][b]",
     'valid': "lambda S, a, b: 0 <= a and a < len(S) and 0 <= b and b < len(S[a])",
     # entry (a, b) comes before position (I, J) of the nested traversal
+    # sum(table.values()) of one level's table: all its records (convention of the engine's sum())
+    'SUMV': "lambda m, i: ST(m, None, i)",
     'before': "lambda S, a, b, I, J: 0 <= a and 0 <= b and ((a < I and a < len(S) and b < len(S[a])) or (a == I and b < J))",
 })
 
@@ -194,7 +196,7 @@ ignore_warnings_and_count = FunctionContract(
                              "        gwm_a[warning_type] = _iL1\n"
                              "        gwm_b[warning_type] = _i\n")),
         'L2': LoopSpec(inv=[
-            "total == number_of_warnings - ST(warning_count, None, _i) + EX(warning_count, _i)"
+            "total == SL(c0, level, None, len(c0)) - ST(warning_count, None, _i) + EX(warning_count, _i)"
             "   + max(0, RS(warning_count, _i) - specs.get(None, 0))",
             "blanket_ignore == max(0, specs.get(None, 0) - RS(warning_count, _i))",
         ]),
